@@ -80,6 +80,7 @@ func run(ctx *core.Ctx) error {
 	cases = append(cases, structureCases()...)
 	cases = append(cases, mutationCases(ctx)...)
 	cases = append(cases, jbig2Cases(ctx)...)
+	cases = append(cases, globalsCases()...)
 	lz := lzwStateCases(ctx)
 	lzFrom := len(cases)
 	cases = append(cases, lz...)
@@ -138,6 +139,9 @@ func run(ctx *core.Ctx) error {
 		}
 		if c.BodyGen != "" {
 			c.body = nil // large bodies are regenerated on demand
+		}
+		if c.Globals != nil && c.Globals.BodyGen != "" {
+			c.Globals.body = nil
 		}
 	}
 	ctx.Ev.Set("outcomes", byOutcome)
@@ -210,7 +214,7 @@ func run(ctx *core.Ctx) error {
 	ctx.Ev.Set("worst_wall_us", worstWall)
 	closest, closestClass := 0, ""
 	for _, r := range recs {
-		limit := 8192 + min(r.RawLen+1, 262144) + 6144 + r.Produced/256
+		limit := 8192 + min(r.RawLen+1, 262144) + 6144 + r.Produced/256 + r.AllowKB
 		if pct := r.AllocKB * 100 / limit; pct > closest {
 			closest, closestClass = pct, r.Class
 		}
